@@ -47,7 +47,34 @@ def _same(got, want):
     return False
 
 
-def compare(result, form, expand=None, limit=200000, **ctxkw):
+def _subst(t, m):
+    if isinstance(t, tuple):
+        if t in m:
+            return m[t]
+        return tuple(_subst(x, m) for x in t)
+    return t
+
+
+def _drop_stores(o, name):
+    """Weak view for the rename contract: stores to and loads of `name` are removed from the trace (a load denotes
+    the value stored last); on normal completion the last stored value is kept as a final pseudo-event."""
+    tr, kind, val = o
+    last = ("unassigned", name)
+    out, m = [], {}
+    for e in tr:
+        e = _subst(e, m)
+        if e[0] == "store" and e[1] == name:
+            last = e[2]
+        elif e[0] == "load" and e[1] == name:
+            m[("var", name, e[2])] = last
+        else:
+            out.append(e)
+    if kind == "value":
+        out.append(("final-value-of", name, last))
+    return (tuple(out), kind, _subst(val, m))
+
+
+def compare(result, form, expand=None, limit=200000, ignore_store=None, **ctxkw):
     """Returns (n_paths, mismatches).  Raises pysem.Unsupported when outside the subset."""
     paths = pysem.explore(pysem.run_result(result, **ctxkw), limit=limit)
     bad = []
@@ -58,7 +85,10 @@ def compare(result, form, expand=None, limit=200000, **ctxkw):
         refs = pysem.explore(hysem.run_form(form, follow=got[0], expand=expand, **ctxkw), fixed=dec, limit=limit)
         for d2, want in refs:
             n += 1
-            if not _same(_norm(got), _norm(want)):
+            g, w = _norm(got), _norm(want)
+            if ignore_store:
+                g, w = _drop_stores(g, ignore_store), _drop_stores(w, ignore_store)
+            if not _same(g, w):
                 bad.append(Mismatch({**dec, **d2}, got, want))
                 if len(bad) >= 3:
                     return n, bad
